@@ -1,8 +1,8 @@
 //! Object-graph histories for C04 (collector safety) and C19 (reclamation).
 //!
 //! A history builds trees / DAGs out of every kind of container the collector has to trace
-//! (boxes, mutable and immutable vectors, lists, dotted pairs, hash maps, mutable and immutable
-//! structs, closures over assigned and unassigned variables), roots them in globals, locals,
+//! (boxes, mutable and immutable vectors, lists, dotted pairs, hash maps - values and keys -, hash sets,
+//! mutable and immutable structs, closures over assigned and unassigned variables), roots them in globals, locals,
 //! arguments, operand-stack temporaries, closures and saved continuations, mutates them through
 //! access paths, drops and aliases roots, and interleaves garbage allocation ("churn") and
 //! collection requests.  The model is a plain arena without a collector; `dump` linearises a
@@ -26,9 +26,13 @@ pub enum Kind {
     IStruct,
     AClos,
     Clos,
+    /// a hash map whose single *key* is the child (the value is 0)
+    HKey,
+    /// a hash set whose single member is the child
+    HSet,
 }
 
-pub const KINDS: [Kind; 10] = [Kind::Box, Kind::MVec, Kind::IVec, Kind::List, Kind::Dotted, Kind::Hash, Kind::MStruct, Kind::IStruct, Kind::AClos, Kind::Clos];
+pub const KINDS: [Kind; 12] = [Kind::Box, Kind::MVec, Kind::IVec, Kind::List, Kind::Dotted, Kind::Hash, Kind::MStruct, Kind::IStruct, Kind::AClos, Kind::Clos, Kind::HKey, Kind::HSet];
 
 impl Kind {
     pub fn tag(self) -> i64 {
@@ -43,6 +47,8 @@ impl Kind {
             Kind::AClos => 8,
             Kind::Clos => 9,
             Kind::IVec => 10,
+            Kind::HKey => 11,
+            Kind::HSet => 12,
         }
     }
     pub fn mutable(self) -> bool {
@@ -60,6 +66,8 @@ impl Kind {
             Kind::IStruct => "struct",
             Kind::AClos => "closure-assigned-capture",
             Kind::Clos => "closure",
+            Kind::HKey => "hash-key",
+            Kind::HSet => "hashset-member",
         }
     }
 }
@@ -88,6 +96,8 @@ pub const PRELUDE: &str = r#"(struct mnode (a b) #:mutable)
         ((mnode? x) (list 6 (dump (mnode-a x)) (dump (mnode-b x))))
         ((inode? x) (list 7 (dump (inode-a x)) (dump (inode-b x))))
         ((function? x) (list (x 2 #f) (dump (x 0 #f))))
+        ((set? x) (list 12 (dump (car (hashset->list x)))))
+        ((and (hash? x) (not (hash-contains? x 1))) (list 11 (dump (car (hash-keys->list x)))))
         ((hash? x) (cons 5 (map (lambda (k) (list k (dump (hash-ref x k)))) (sort (hash-keys->list x) <))))
         ((null? x) (list 3))
         ((pair? x) (let loop ((p x) (acc '()))
@@ -239,7 +249,7 @@ impl Model {
             st.kinds_built.push(name);
         }
         let arity = match kind {
-            Kind::Box | Kind::AClos | Kind::Clos => 1,
+            Kind::Box | Kind::AClos | Kind::Clos | Kind::HKey | Kind::HSet => 1,
             Kind::MStruct | Kind::IStruct => 2,
             Kind::Dotted => 2 + c.below(2),
             Kind::List => c.below(4),
@@ -285,6 +295,8 @@ impl Model {
             Kind::IStruct => format!("(inode {})", exprs.join(" ")),
             Kind::AClos => format!("(mk-aclos {})", exprs[0]),
             Kind::Clos => format!("(mk-clos {})", exprs[0]),
+            Kind::HKey => format!("(hash {} 0)", exprs[0]),
+            Kind::HSet => format!("(hashset {})", exprs[0]),
         };
         (Val::Ref(id), e)
     }
@@ -310,6 +322,8 @@ impl Model {
             Kind::MStruct => format!("(mnode-{} {})", ["a", "b"][i], e),
             Kind::IStruct => format!("(inode-{} {})", ["a", "b"][i], e),
             Kind::AClos | Kind::Clos => format!("({} 0 #f)", e),
+            Kind::HKey => format!("(car (hash-keys->list {}))", e),
+            Kind::HSet => format!("(car (hashset->list {}))", e),
         }
     }
 
